@@ -201,6 +201,11 @@ def build_jobs(pid, tier, seed, workdir):
         if name.startswith("t_") or models.MODELS[name].get("direct"):
             continue
         sc = models.scenario(name)
+        npr = models.MODELS[name].get("probes", 0)
+        if npr:
+            # the instance's probe HTLCs only arrive in its probe phase; the random scheduler has no phases and gets
+            # the run-phase catalogue only
+            sc = dict(sc, htlcs=sc["htlcs"][:len(sc["htlcs"]) - npr])
         for _ in range(300 if thorough else 60):
             r = {"seed": rng0.getrandbits(40), "steps": rng0.randint(20, 50), "crashes": rng0.choice(spec["crashes"]),
                  "wfaults": rng0.randint(0, spec["wf"]), "rfaults": 0, "maxparts": 2, "maxpays": 3, "maxclock": 8}
